@@ -18,6 +18,7 @@ import (
 	"strconv"
 	"strings"
 	"testing"
+	"time"
 )
 
 // vfE3HTTPOp executes one `http` op (w = fields of the op line) and renders the answer.
@@ -33,6 +34,27 @@ func vfE3HTTPOp(v *vfE3Node, w []string) string {
 	opts := v.n.getOpts()
 	defer v.n.swapOpts(opts) // PUT /config/log_level must not silence the log capture
 	status, msg := vfE3Serve(v, method, path, query, cl, body)
+	if path == "/channel/delete" && status == "200" {
+		// an ephemeral topic that lost its last channel deletes itself in a goroutine: wait for it
+		if q, err := url.ParseQuery(query); err == nil {
+			if tn := q.Get("topic"); strings.HasSuffix(tn, "#ephemeral") {
+				deadline := time.Now().Add(10 * time.Second)
+				for time.Now().Before(deadline) {
+					t, err := v.n.GetExistingTopic(tn)
+					if err != nil {
+						break
+					}
+					t.RLock()
+					nch := len(t.channelMap)
+					t.RUnlock()
+					if nch > 0 {
+						break
+					}
+					time.Sleep(200 * time.Microsecond)
+				}
+			}
+		}
+	}
 	return fmt.Sprintf("H=%s M=%s B=%s", status, msg, v.Snapshot())
 }
 
@@ -153,6 +175,18 @@ func (g *vfE3HGen) textBody(o *Options) []byte {
 				b = append(b, '\n')
 			}
 		}
+	}
+	if o.MaxBodySize < 100000 && g.r.Intn(12) == 0 {
+		// exactly max-body-size+1 (or ±1) bytes whose last line is longer than max-msg-size
+		tail := bytes.Repeat([]byte("m"), int(o.MaxMsgSize)+1)
+		if g.r.Intn(2) == 0 {
+			tail = append(tail, '\n')
+		}
+		target := int(o.MaxBodySize) + g.r.Intn(3)
+		for len(b)+len(tail) < target {
+			b = append(b, []byte("x\n")[:1+g.r.Intn(2)]...)
+		}
+		return append(b, tail...)
 	}
 	big := g.r.Intn(10)
 	if o.MaxBodySize > 100000 && g.r.Intn(6) > 0 {
@@ -431,6 +465,45 @@ func TestVerifE3HTTP(t *testing.T) {
 					fail("ORACLE-FAIL key=mpub-text-equiv req=%s what=text /mpub answered %s but TCP MPUB of its lines answered %v; queues %s vs %s", vfHex(text), hs, res.replies, a, b)
 				}
 				hist["twin:mpub-text"]++
+			case 5, 6: // admin scenario on a small universe: cross-object effects, pause + publish + empty
+				topics := []string{"ta", "tb#ephemeral"}
+				chans := []string{"c1", "c2#ephemeral"}
+				if g.r.Intn(2) == 0 { // setup: a paused topic that has a channel and holds messages itself
+					tn := topics[g.r.Intn(2)]
+					httpOp(v, "POST", "/channel/create", "topic="+url.QueryEscape(tn)+"&channel="+url.QueryEscape(chans[g.r.Intn(2)]), 0, nil, 1)
+					httpOp(v, "POST", "/pub", "topic="+url.QueryEscape(tn), 2, []byte("s1"), 1)
+					httpOp(v, "POST", "/topic/pause", "topic="+url.QueryEscape(tn), 0, nil, 1)
+					httpOp(v, "POST", "/pub", "topic="+url.QueryEscape(tn), 2, []byte("s2"), 1)
+				}
+				for k := 3 + g.r.Intn(6); k > 0; k-- {
+					tn, cn := topics[g.r.Intn(2)], chans[g.r.Intn(2)]
+					switch g.r.Intn(12) {
+					case 0:
+						httpOp(v, "POST", "/topic/create", "topic="+url.QueryEscape(tn), 0, nil, 1)
+					case 1, 2:
+						httpOp(v, "POST", "/channel/create", "topic="+url.QueryEscape(tn)+"&channel="+url.QueryEscape(cn), 0, nil, 1)
+					case 3:
+						httpOp(v, "POST", "/topic/"+g.pick("pause", "unpause"), "topic="+url.QueryEscape(tn), 0, nil, 1)
+					case 4:
+						httpOp(v, "POST", "/channel/"+g.pick("pause", "unpause"), "topic="+url.QueryEscape(tn)+"&channel="+url.QueryEscape(cn), 0, nil, 1)
+					case 5, 6, 7:
+						body := []byte(fmt.Sprintf("a%d", g.r.Intn(100)))
+						q := "topic=" + url.QueryEscape(tn)
+						if g.r.Intn(4) == 0 {
+							q += "&defer=600000"
+						}
+						httpOp(v, "POST", "/pub", q, int64(len(body)), body, 1)
+					case 8:
+						httpOp(v, "POST", "/topic/empty", "topic="+url.QueryEscape(tn), 0, nil, 1)
+					case 9:
+						httpOp(v, "POST", "/channel/empty", "topic="+url.QueryEscape(tn)+"&channel="+url.QueryEscape(cn), 0, nil, 1)
+					case 10:
+						httpOp(v, "POST", "/channel/delete", "topic="+url.QueryEscape(tn)+"&channel="+url.QueryEscape(cn), 0, nil, 1)
+					default:
+						httpOp(v, "POST", "/topic/delete", "topic="+url.QueryEscape(tn), 0, nil, 1)
+					}
+				}
+				hist["step:admin-scenario"]++
 			case 4:
 				healthy := 1
 				if g.r.Intn(3) == 0 {
